@@ -176,3 +176,78 @@ def sensitivity(args):
     print('sensitivity: {} mutations, {} not detected'.format(
         len(todo), missed))
     return 0 if missed == 0 else 2
+
+
+def _fidelity_child(use_sim, q):
+    """Assembles a few matrices/vectors with the real multiprocessing.Pool
+    (use_sim False) or under the simulated pool."""
+    import hashlib
+    import numpy as np
+    from . import repo
+    if use_sim:
+        from . import seams, simmp, simdisk
+        seams.install()
+        simmp.arm(5, 1234)
+        simdisk.arm()
+    else:
+        import multiprocessing as mp
+        mp.set_start_method('fork')
+    M = repo.mod('src.mesh')
+    P = repo.mod('src.parametrization')
+    SLm = repo.mod('src.single_layer')
+    IPm = repo.mod('src.initial_potential')
+    IM = repo.mod('src.initial_mesh')
+    EE = repo.mod('src.error_estimator')
+    out = []
+    for curve in ('UnitSquare', 'Circle'):
+        mesh = M.MeshParametrized(getattr(P, curve)())
+        mesh.uniform_refine()
+        for e in list(mesh.leaf_elements)[:3]:
+            mesh.refine_space(e)
+        SL = SLm.SingleLayerOperator(mesh, quad_order=6)
+        elems = list(mesh.leaf_elements)
+        a = SL.bilform_matrix(elems, elems, use_mp=True)
+        out.append(hashlib.md5(np.ascontiguousarray(a).tobytes()).hexdigest())
+        est = EE.ErrorEstimator(mesh, N_poly=3)
+        r = lambda t, x_hat, gamma: np.sin(t) * gamma(x_hat)[0]
+        s = est.estimate_sobolev(elems, r, use_mp=True)
+        out.append(hashlib.md5(np.ascontiguousarray(s).tobytes()).hexdigest())
+        if curve == 'UnitSquare':
+            M0 = IPm.InitialOperator(bdr_mesh=mesh, u0=lambda xy: 1,
+                                     initial_mesh=IM.UnitSquareBoundaryRefined,
+                                     quad_int=3)
+            v = M0.linform_vector(elems[:6], use_mp=True)
+            out.append(hashlib.md5(np.ascontiguousarray(v).tobytes()).hexdigest())
+    if use_sim:
+        from . import simmp
+        simmp.reap_all()
+    q.append(out)
+
+
+def fidelity(args):
+    """The stub must not change what the real thing computes: the same
+    assembly calls under CPython's multiprocessing.Pool and under SimPool
+    give bitwise identical arrays on the unchanged tree."""
+    import json
+    import subprocess
+    from . import core
+    res = []
+    for use_sim in (False, True):
+        code = ('import sys; sys.path.insert(0, %r); '
+                'from sim import selftest; q=[]; '
+                'selftest._fidelity_child(%r, q); import json; '
+                'print("RESULT" + json.dumps(q[0]))' % (core.VERIF, use_sim))
+        p = subprocess.run([sys.executable, '-c', code],
+                           stdout=subprocess.PIPE, stderr=subprocess.PIPE,
+                           timeout=1200)
+        line = [l for l in p.stdout.decode().split('\n')
+                if l.startswith('RESULT')]
+        if not line:
+            print('HARNESS-ERROR: fidelity child failed:',
+                  p.stderr.decode()[-1500:])
+            return 2
+        res.append(json.loads(line[0][6:]))
+    same = res[0] == res[1]
+    print('fidelity: real multiprocessing.Pool vs SimPool on {} arrays: '
+          '{}'.format(len(res[0]), 'bitwise equal' if same else 'DIFFERENT'))
+    return 0 if same else 2
